@@ -314,7 +314,7 @@ def gen_project(d, vast, state, pep_shaped, max_files=5, max_patterns=4, unicode
         for f in files:
             if f["path"] == glob_extra[0]:
                 f["lines"].insert(d.int(0, len(f["lines"])), [["t", "not mine: " + occurrence_text(patterns[glob_extra[1]], vast, state)]])
-                f["seps"].insert(0, f["seps"][0] if f["seps"][0] else "\n")
+                f["seps"].insert(0, {"lf": "\n", "crlf": "\r\n", "cr": "\r"}.get(f["regime"]) or f["seps"][0] or "\n")
     for f in files:
         if f["regime"] == "mixed":
             # bumpver's notion of a line differs from ours under mixed separators: plant every pattern once only
